@@ -115,8 +115,24 @@ def run(ctx, repo, tier):
     for m in (le, gc, ls):
         ctx.analysed(m)
     reads = [n for n in ast.walk(le.node) if isinstance(n, ast.Call) and (repo.dotted_of(le.module, n.func) or "") == "pandas.read_csv"]
-    xvg = [c for c in reads if any(k.arg in ("skiprows", "comment") for k in c.keywords)]
-    csv = [c for c in reads if c not in xvg]
+    def branch_of(call):
+        """'xvg' / 'csv' from the file-type test that guards the call"""
+        n = call
+        while n is not None and n is not le.node:
+            par = getattr(n, "_parent", None)
+            if isinstance(par, ast.If) and any(n is x for x in par.body):
+                t = src(par.test)
+                if "xvg" in t:
+                    return "xvg"
+                if "csv" in t:
+                    return "csv"
+            n = par
+        return None
+    xvg = [c for c in reads if branch_of(c) == "xvg"]
+    csv = [c for c in reads if branch_of(c) == "csv"]
+    if not xvg and not csv:
+        xvg = [c for c in reads if any(k.arg in ("skiprows", "comment") for k in c.keywords)]
+        csv = [c for c in reads if c not in xvg]
     ctx.instance("PAIRIO", 6)
     if len(xvg) != 1:
         ctx.inconclusive("PAIRIO", "C20.xvg.call", "no pandas.read_csv(skiprows=..., comment=...) call found for the xvg branch", le.where,
@@ -171,6 +187,19 @@ def run(ctx, repo, tier):
         ctx.instance("PAIRIO")
         ctx.check(isinstance(ic, ast.Constant) and ic.value == 0, "PAIRIO", "C20.csv.index", "csv tables are read with index_col=0, the inverse "
                   "of DataFrame.to_csv's default index column", le.where, src(csv[0])[:160], witness=src(ic) if ic is not None else "index_col absent")
+        ALTERING = {"comment", "skiprows", "skipfooter", "nrows", "usecols", "header", "names", "decimal", "thousands", "na_values", "quotechar",
+                    "escapechar", "skip_blank_lines", "dtype", "converters", "true_values", "false_values", "prefix"}
+        extra = sorted(k for k in kw if k in ALTERING)
+        unknown = sorted(k for k in kw if k not in ALTERING and k not in ("index_col", "filepath_or_buffer", "sep", "delimiter", "engine", "encoding"))
+        ctx.instance("PAIRIO")
+        if extra:
+            ctx.violate("PAIRIO", "C20.csv.options", "the csv reader is given options that change what is parsed (to_csv writes none of these): "
+                        "e.g. comment='#' truncates the header line at a legend that contains '#', so columns are renamed / shifted", le.where,
+                        src(csv[0])[:160], witness=f"options {extra}")
+        elif unknown:
+            ctx.inconclusive("PAIRIO", "C20.csv.options", "csv reader options not recognised", le.where, witness=str(unknown))
+        else:
+            ctx.ok("PAIRIO", "C20.csv.options", "the csv table is parsed without content-altering options", le.where)
     else:
         ctx.inconclusive("PAIRIO", "C20.csv.index", "csv branch not recognised", le.where, witness=f"{len(csv)} plain read_csv calls")
     # legends
